@@ -183,7 +183,7 @@ func init() {
 		ID: "C17", Level: "exploration", Scenarios: []string{"oracle"}, PanicIsViolation: true,
 		Oracles:   func(w *World) []Oracle { return []Oracle{&c17Oracle{}} },
 		Quick:     Budget{Runs: 160, MaxEvents: 140},
-		Thorough:  Budget{Runs: 3000, MaxEvents: 400},
+		Thorough:  Budget{Runs: 1200, MaxEvents: 400},
 		Essential: []string{"c17.active_mean_checked"},
 		BatchProbe: []string{"c17.active_mean_checked", "c17.active_mean_checked_n_ge_2", "c17.zero_sample", "c17.feed_outage_ended", "c17.huge_sample", "c17.inactive_observed"},
 		Rule: "one case = one seeded run of the real bandoracle+market pipeline for a drawn window size N in {1,2,3,5,10} and accepted gap, fed through the real IBC callbacks with PRNG-chosen packet fates (drop ack/response/both, reorder, duplicate, stale id, short list, wrong channel, late old response) and sample values (random, zero, repeated, max uint64), assets added mid-run; compared after every block with a reference model (set of admissible windows; mean in big integers); distinct = distinct digest of (event, outcome) sequence; non-trivial = at least one active price was compared with the model mean",
